@@ -229,7 +229,7 @@ func checkC02(e *env) {
 	r.Rule = "li: every segment with endpoints in {-1..5}^2 (units of half a pixel side 2) against 5 boxes (exhaustive), plus random segments with coordinates up to 2^60; " +
 		"route: segments with endpoints on the quarter-pixel lattice of a 3x3-pixel window x subsets of its 9 pixels as hot set, for 3 placements of the window in a depth-5 grid " +
 		"(quick: sampled; thorough: exhaustive), plus random segments/hot sets on deeper grids and non-zero origins, endpoints forced onto borders and corners. " +
-		"Non-trivial = a tie class is hit (endpoint on a pixel border/corner, edge along a border, edge through a corner of a hot pixel) or at least two pixels are routed; distinct by op text."
+		"snap: valid polygons through the real SnapPolygon; where the model's routed chains (op chains) visit no pixel centre twice, the result must be exactly those chains (one polygon, shell first, orientation as normalised, reversed under the flag). Non-trivial = a tie class is hit (endpoint on a pixel border/corner, edge along a border, edge through a corner of a hot pixel) or at least two pixels are routed; distinct by op text."
 	// ---- li, exhaustive small scope
 	boxes := []ibox{{0, 0, 2, 2}, {2, 2, 4, 4}, {1, 1, 3, 3}, {0, 2, 4, 4}, {-1, -1, 0, 0}}
 	for x1 := int64(-1); x1 <= 5; x1++ {
@@ -356,4 +356,74 @@ func checkC02(e *env) {
 	}
 	e.flush()
 	r.Exhaustive = exhaustive
+	// ---- second sentence: a polygon none of whose parts collapse onto a common pixel comes back as the ring-by-ring concatenation
+	// of its routed edges (the model's chains; the routing is proved exact), shell counter-clockwise, holes clockwise
+	e.runSnap(snapOpts{stream: "snap", n: e.n(6000, 300000), needChains: true, gen: e.validGen(allWindows(), 24), hook: func(c *snapCase, sr *snapResult, chains map[uint][]ring) {
+		if sr.panicMsg != "" || sr.hang || chains == nil {
+			return
+		}
+		for _, l := range c.levels() {
+			ch := chains[l]
+			ok := maxVisits(ch) == 1
+			for _, cr := range ch {
+				if len(cr) < 3 {
+					ok = false
+				}
+			}
+			if !ok {
+				r.Dist["snap:some-part-collapses(second sentence not applicable)"]++
+				continue
+			}
+			r.Dist["snap:no-collapse(second sentence applies)"]++
+			polys := sr.levels[l]
+			bad := ""
+			if len(polys) != 1 || len(polys[0]) != len(ch) {
+				bad = fmt.Sprintf("expected one polygon with %d ring(s)", len(ch))
+			} else {
+				for i, cr := range ch {
+					want := append(ring{}, cr...)
+					if c.cfg.ReverseWindingOrder {
+						reverseRing(want)
+					}
+					if !sameCyclic(polys[0][i], want) {
+						bad = fmt.Sprintf("ring %d is not the chain of routed edges %s", i, fmtRing(want))
+						break
+					}
+					s := area2(cr).Sign()
+					if (i == 0 && s <= 0) || (i > 0 && s >= 0) {
+						bad = fmt.Sprintf("routed ring %d has the wrong orientation", i)
+					}
+				}
+			}
+			if bad != "" {
+				e.snapViolation("non-collapsing-polygon-is-the-concatenation-of-routed-edges", c, sr, fmt.Sprintf("level %d: %s", l, bad), "")
+				return
+			}
+		}
+	}})
+}
+
+func sameCyclic(a, b ring) bool {
+	if len(a) != len(b) {
+		return false
+	}
+	if len(a) == 0 {
+		return true
+	}
+	for off := range b {
+		if b[off] != a[0] {
+			continue
+		}
+		same := true
+		for k := range a {
+			if a[k] != b[(off+k)%len(b)] {
+				same = false
+				break
+			}
+		}
+		if same {
+			return true
+		}
+	}
+	return false
 }
